@@ -154,15 +154,12 @@ pub proof fn lemma_fee_fits(a: nat, s: nat)
 /// offer <= u128::MAX, bp >= 1 atomic  =>  offer * floor(10^36/bp) fits 256 bits (belief-price branch never overflows)
 pub proof fn lemma_belief_fits(offer: nat, bp: nat)
     requires offer <= U128_MAX, bp > 0,
-    ensures ((offer * DEC) * ((DEC * DEC) / bp)) / DEC == offer * ((DEC * DEC) / bp),
-        offer * ((DEC * DEC) / bp) <= u256_max(),
+    ensures (offer * DEC) / bp <= u256_max(),
 {
-    let inv = (DEC * DEC) / bp;
-    lemma_mul_div_cancel(offer, inv, DEC);
-    vstd::arithmetic::div_mod::lemma_div_is_ordered_by_denominator((DEC * DEC) as int, 1, bp as int);
-    assert(inv <= DEC * DEC);
-    assert(offer * inv <= U128_MAX * (DEC * DEC)) by (nonlinear_arith) requires offer <= U128_MAX, inv <= DEC * DEC;
-    assert(U128_MAX * (DEC * DEC) <= u256_max()) by (compute);
+    vstd::arithmetic::div_mod::lemma_div_is_ordered_by_denominator((offer * DEC) as int, 1, bp as int);
+    assert((offer * DEC) / 1 == offer * DEC);
+    assert(offer * DEC <= U128_MAX * DEC) by (nonlinear_arith) requires offer <= U128_MAX;
+    assert(U128_MAX * DEC <= u256_max()) by (compute);
 }
 
 // nested floor: floor(floor(n*D/m)/D) == floor(n/m)
@@ -240,10 +237,10 @@ pub open spec fn eff_max_slippage(max_slippage: Option<Decimal>) -> nat {
 pub open spec fn slippage_ok_no_belief(max_slippage: Option<Decimal>, ret: nat, slip: nat) -> bool {
     (slip * DEC) / (ret + slip) <= eff_max_slippage(max_slippage)
 }
-/// with belief price bp: expected = floor(offer * floor(10^36/bp) / 10^18); accept iff ret >= expected or
+/// with belief price bp: expected = floor(offer * 10^18 / bp atomics), the exact floor of offer/bp (fix F11; before it the 18-decimals inverse of bp was used); accept iff ret >= expected or
 /// (expected - ret)/expected (18-decimals floor) <= max
 pub open spec fn belief_expected(bp: Decimal, offer: nat) -> nat {
-    (((offer * DEC) * ((DEC * DEC) / bp@)) / DEC) / DEC
+    (offer * DEC) / bp@
 }
 pub open spec fn slippage_ok_belief(bp: Decimal, max_slippage: Option<Decimal>, offer: nat, ret: nat) -> bool {
     let e = belief_expected(bp, offer);
